@@ -743,6 +743,8 @@ class Interp:
         self.depth += 1
         if self.depth > 200: raise PathEnd('bound', 'call depth > 200')
         try:
+            if isinstance(callee, VEnum) and not callee.items:      # tuple-variant constructor used as a function value
+                return VEnum(callee.ty, callee.variant, list(args))
             if isinstance(callee, VFn):
                 if callee.closure:
                     if self.closure_map is None: self.build_closure_map()
